@@ -162,6 +162,25 @@ func c16One(id int, seed int64, kind string) c16Case {
 		sa, sb = login(route, "ghost", lit("Wrong-pass1!")), login(route, "u1", lit("Wrong-pass1!"))
 		c.Pre = "unknown-vs-wrong"
 	}
+	// decorations both requests carry alike: a return target, remember-me, stray parameters
+	if sa.Req != nil && sb.Req != nil {
+		if rng.Intn(2) == 0 {
+			q := KV{"redir", lit(pickS(rng, "/back", "/back?x=1", "/ok/recover", "http://evil.test/", "//evil.test"))}
+			if rng.Intn(3) == 0 && !cfg.API {
+				sa.Req.Form, sb.Req.Form = append(sa.Req.Form, q), append(sb.Req.Form, q)
+			} else {
+				sa.Req.Query, sb.Req.Query = append(sa.Req.Query, q), append(sb.Req.Query, q)
+			}
+		}
+		if rng.Intn(3) == 0 {
+			f := KV{"rm", lit("true")}
+			sa.Req.Form, sb.Req.Form = append(sa.Req.Form, f), append(sb.Req.Form, f)
+		}
+		if rng.Intn(4) == 0 {
+			f := KV{"extra", lit("1")}
+			sa.Req.Query, sb.Req.Query = append(sa.Req.Query, f), append(sb.Req.Query, f)
+		}
+	}
 	if !cfg.has("lock") {
 		var e2 []SymStep
 		for _, s := range extra {
